@@ -37,7 +37,7 @@ def rich_layer(rng):
 class C20:
     id = "C20"
     stream = "c20"
-    translator_prefixes = ["determinism", "shared.rs: fn replace_layer_exec_d_programs"]
+    translator_prefixes = ["determinism", "shared.rs: fn replace_layer_exec_d_programs", "layer_env.rs"]
     coq_targets = ["theories/Checks/C20Hold.vo", "theories/Checks/C20Agree.vo", "theories/Props/C20.vo"]
     hold_target = "theories/Checks/C20Hold.vo"
     agree_target = "theories/Checks/C20Agree.vo"
